@@ -1092,6 +1092,7 @@ package p9
 //@ interface handler.handle
 //@   impls
 //@   use handlerBase localLocks
+//@   requires[C06,C14] @a-flush-handler-never-gets-its-own-tag typeis(recv, *tflush) ==> unbox(recv, *tflush).OldTag != ghost("$curTag", tag)
 //@   ensures[C06,C15] @replies result != nil
 //@   ensures[C06] @reply-type-matches typeis(result, *rlerror) || replyFor(recv, result)
 //@   maypanic
@@ -1101,6 +1102,7 @@ package p9
 
 //@ func (*connState).handle
 //@   use handlerBase localLocks
+//@   requires[C06,C14] @a-flush-handler-never-gets-its-own-tag typeis(m, *tflush) ==> unbox(m, *tflush).OldTag != ghost("$curTag", tag)
 //@   ensures[C06,C15] @always-a-reply result != nil
 //@   ensures[C06] @reply-type-matches typeis(result, *rlerror) || replyFor(m, result)
 //@   ensures[C15] @panic-becomes-efault ghost("$didpanic", bool) ==> isErr(result, linux.EFAULT)
@@ -1139,6 +1141,7 @@ package p9
 
 //@ func (*tflush).handle
 //@   use handlerBase dirOpRows localLocks
+//@   requires[C06,C14] @never-its-own-tag t.OldTag != ghost("$curTag", tag)
 //@   ensures[C06] @reply-type typeis(result, *rflush)
 //@   ensures[C14] @rflush-only-after-wait ncalls("(*connState).WaitTag") == 1
 //@   at (*connState).WaitTag requires[C14] @waits-for-the-flushed-tag arg0 == old(t.OldTag)
@@ -1232,17 +1235,21 @@ package p9
 //@ func (*connState).handleRequest
 //@   use handlerBase localLocks
 //@   ensures[C18] @request-object-recycled-at-most-once ncalls("(*registry).put") <= 1
-//@   at (*registry).put requires[C18] @recycled-only-after-the-reply-was-sent ncalls("send") == 1 && ncalls("(*connState).handle") == 1
+//@   at (*registry).put requires[C18] @recycled-only-after-the-reply-was-sent ncalls("send") == 1 && ncalls("(*connState).ClearTag") == 1
 //@   requires[C06] cs.server != nil
 //@   at send requires[C06] @frames-are-contiguous held(cs.sendMu) == -1
 //@   at send requires[C06] @reply-carries-request-tag arg2 == ghost("$ret.tag", tag)
-//@   at send requires[C14] @tag-cleared-before-reply ncalls("(*connState).handle") == ncalls("(*connState).ClearTag")
+//@   at send requires[C14] @tag-cleared-before-reply ncalls("(*connState).StartTag") == ncalls("(*connState).ClearTag")
 //@   at (*connState).handle requires[C06] @not-holding-receive-token held(cs.recvMu) == 0
 //@   at (*connState).handle requires[C06] @a-receiver-exists-first ghost("$spawned") > old(ghost("$spawned")) || cs.recvIdle != 0
 //@   at (*connState).handle requires[C06] @tag-registered-first ncalls("(*connState).StartTag") == 1
-//@   at (*connState).ClearTag requires[C14] @only-after-handler-returned ncalls("(*connState).handle") == 1 && arg0 == ghost("$ret.tag", tag)
+// (a Tflush naming its own tag is answered at once, without a handler: F5 fix)
+//@   at (*connState).ClearTag requires[C14] @only-after-handler-returned (ncalls("(*connState).handle") == 1 || (typeis(m, *tflush) && unbox(m, *tflush).OldTag == tag)) && arg0 == ghost("$ret.tag", tag)
 //@   at (*connState).StartTag requires[C06] @starts-the-request-tag arg0 == ghost("$ret.tag", tag)
+//@   at (*connState).StartTag ghost set $curTag:tag = arg0
+//@   at (*connState).handle requires[C06,C14] @self-flush-is-answered-without-waiting !(typeis(arg0, *tflush) && unbox(arg0, *tflush).OldTag == ghost("$ret.tag", tag))
 //@   ensures[C06] @exactly-one-reply-per-handled-request ncalls("(*connState).handle") == 1 ==> ncalls("send") == 1
+//@   ensures[C06,C14] @every-accepted-request-is-answered ncalls("(*connState).ClearTag") == 1 ==> ncalls("send") == 1
 //@   ensures[C06] @never-two-replies ncalls("send") <= 1 && ncalls("(*connState).handle") <= 1
 //@   ensures[C06] @no-unsolicited-reply ncalls("send") == 1 ==> ncalls("recv") == 1
 //@   ensures[C02] @connection-error-ends-serving !result ==> ncalls("send") == 0 && ncalls("(*connState).handle") == 0
